@@ -2,6 +2,7 @@
 use crate::common::*;
 use crate::mock::{Model, Op};
 use crate::sclient::{self, Act, Cfg as CCfg, Dl, Order, YEAR_MS};
+use crate::sserver::{self, Cfg as SCfg, Mode, SAct, SDl};
 use serde_json::{json, Value};
 use std::collections::BTreeMap;
 
@@ -9,9 +10,15 @@ pub fn run(ctx: &RunCtx) -> i32 {
     if let Ok(one) = std::env::var("VERIF_ONE") {
         // debugging aid: run a single S-client scenario index and print its trace
         let i: u64 = one.parse().unwrap();
-        let cfg = client_cfg(ctx.prop, i, ctx.seed, ctx.thorough());
-        println!("{}", cfg.to_json());
-        let o = sclient::run(&cfg);
+        let o = if std::env::var("VERIF_FAMILY").as_deref() == Ok("server") {
+            let cfg = server_cfg(ctx.prop, i, ctx.seed, ctx.thorough());
+            println!("{}", cfg.to_json());
+            sserver::run(&cfg)
+        } else {
+            let cfg = client_cfg(ctx.prop, i, ctx.seed, ctx.thorough());
+            println!("{}", cfg.to_json());
+            sclient::run(&cfg)
+        };
         for l in o.trace.iter().take(400) {
             println!("{l}");
         }
@@ -23,20 +30,28 @@ pub fn run(ctx: &RunCtx) -> i32 {
     }
     if let Ok(n) = std::env::var("VERIF_SCAN") {
         let n: u64 = n.parse().unwrap();
+        let server = std::env::var("VERIF_FAMILY").as_deref() == Ok("server");
         for i in 0..n {
-            let cfg = client_cfg(ctx.prop, i, ctx.seed, ctx.thorough());
             let t = std::time::Instant::now();
-            let o = sclient::run(&cfg);
+            let (o, label) = if server {
+                let cfg = server_cfg(ctx.prop, i, ctx.seed, ctx.thorough());
+                (sserver::run(&cfg), cfg.label)
+            } else {
+                let cfg = client_cfg(ctx.prop, i, ctx.seed, ctx.thorough());
+                (sclient::run(&cfg), cfg.label)
+            };
             let el = t.elapsed().as_millis();
             if o.inconclusive.is_some() || el > 200 || !o.viols.is_empty() {
-                println!("i={i} label={} ms={el} inconclusive={:?} viols={:?}", cfg.label, o.inconclusive, o.viols.iter().map(|v| v.signature()).collect::<Vec<_>>());
+                println!("i={i} label={label} ms={el} inconclusive={:?} viols={:?}", o.inconclusive, o.viols.iter().map(|v| v.signature()).collect::<Vec<_>>());
             }
         }
         return 0;
     }
     match ctx.prop {
-        "C01" | "C02" | "C03" | "C05" | "C10" | "C11" | "C14" | "C18" => client_prop(ctx),
-        "C09" => c09_client(ctx),
+        "C01" | "C02" | "C03" | "C05" | "C18" => family_prop(ctx, true, false),
+        "C04" | "C06" | "C08" | "C12" => family_prop(ctx, false, true),
+        "C10" | "C11" | "C14" => family_prop(ctx, true, true),
+        "C09" => c09(ctx),
         p => {
             eprintln!("unknown property {p}");
             2
@@ -56,7 +71,7 @@ pub fn replay(prop: &'static str, path: &str) -> i32 {
             let base_seed = sc["base_seed"].as_u64().unwrap_or(0);
             let p = sc["for_property"].as_str().unwrap_or(prop).to_string();
             let p: &'static str = Box::leak(p.into_boxed_str());
-            let mut cfg = client_cfg(p, idx, base_seed, sc["tier"].as_str() == Some("thorough"));
+            let mut cfg = if p == "C09base" { c09_base_cfg(idx, base_seed) } else { client_cfg(p, idx, base_seed, sc["tier"].as_str() == Some("thorough")) };
             if let Some(f) = sc.get("fault_override") {
                 if let (Some(o), Some(k)) = (f[0].as_u64(), f[1].as_u64()) {
                     cfg.fault = Some((Op::ALL[o as usize], k as usize));
@@ -64,6 +79,19 @@ pub fn replay(prop: &'static str, path: &str) -> i32 {
             }
             cfg.verbose = true;
             sclient::run(&cfg)
+        }
+        "S-server" => {
+            let idx = sc["index"].as_u64().unwrap_or(0);
+            let base_seed = sc["base_seed"].as_u64().unwrap_or(0);
+            let p = sc["for_property"].as_str().unwrap_or(prop).to_string();
+            let p: &'static str = Box::leak(p.into_boxed_str());
+            let mut cfg = if p == "C09base" { c09_server_base_cfg(idx, base_seed) } else { server_cfg(p, idx, base_seed, sc["tier"].as_str() == Some("thorough")) };
+            if let Some(f) = sc.get("fault_override") {
+                if let (Some(o), Some(k)) = (f[0].as_u64(), f[1].as_u64()) {
+                    cfg.fault = Some((Op::ALL[o as usize], k as usize));
+                }
+            }
+            sserver::run(&cfg)
         }
         _ => {
             println!("unknown family");
@@ -514,28 +542,55 @@ fn client_required_cells(prop: &str) -> Vec<String> {
     v.into_iter().map(String::from).collect()
 }
 
-fn client_prop(ctx: &RunCtx) -> i32 {
+fn tag(o: &mut Outcome, i: u64, seed: u64, prop: &str, tier: &str) {
+    if let Value::Object(m) = &mut o.desc {
+        m.insert("index".into(), json!(i));
+        m.insert("base_seed".into(), json!(seed));
+        m.insert("for_property".into(), json!(prop));
+        m.insert("tier".into(), json!(tier));
+    }
+}
+
+/// Properties decided on the S-client and/or S-server families.
+fn family_prop(ctx: &RunCtx, client: bool, server: bool) -> i32 {
     let prop = ctx.prop;
-    let n = ctx.n(6_000, 400_000);
+    let n = ctx.n(40_000, 2_000_000);
     let thorough = ctx.thorough();
     let seed = ctx.seed;
     let tier = ctx.tier.clone();
     let agg = run_parallel(prop, n, &ctx.known, |i| {
-        let cfg = client_cfg(prop, i, seed, thorough);
-        let mut o = sclient::run(&cfg);
-        if let Value::Object(m) = &mut o.desc {
-            m.insert("index".into(), json!(i));
-            m.insert("base_seed".into(), json!(seed));
-            m.insert("for_property".into(), json!(prop));
-            m.insert("tier".into(), json!(tier));
+        let use_client = client && (!server || i % 2 == 0);
+        if use_client {
+            let idx = if server { i / 2 } else { i };
+            let cfg = client_cfg(prop, idx, seed, thorough);
+            let mut o = sclient::run(&cfg);
+            tag(&mut o, idx, seed, prop, &tier);
+            o
+        } else {
+            let idx = if client { i / 2 } else { i };
+            let cfg = server_cfg(prop, idx, seed, thorough);
+            let mut o = sserver::run(&cfg);
+            tag(&mut o, idx, seed, prop, &tier);
+            o
         }
-        o
     });
+    let mut req = vec![];
+    if client {
+        req.extend(client_required_cells(prop));
+    }
+    if server {
+        req.extend(server_required_cells(prop));
+    }
+    let fams = match (client, server) {
+        (true, true) => "S-client and S-server",
+        (true, false) => "S-client",
+        _ => "S-server",
+    };
     let rep = Report {
         level: "exploration",
         rule: format!(
-            "S-client scenarios (real client::new Channel + RequestDispatch, harness plays the server over a monitored mock transport) under a seeded poll-granular scheduler on tokio's paused clock: {} directed shapes x schedules + seeded random configurations. A case is non-trivial for {prop} when the property's premise was exercised (see DESIGN.md section 4); distinct = distinct behaviour signatures (hash of the abstracted scheduler/transport event sequence)",
-            N_CLIENT_DIRECTED
+            "{fams} scenarios: the real tarpc client dispatch / server channel against a harness-played peer over a monitored mock transport, under a seeded poll-granular scheduler on tokio's paused clock ({} + {} directed shapes x schedules, plus seeded random configurations and workloads). A case is non-trivial for {prop} when the property's premise was exercised in it (DESIGN.md section 4); distinct = distinct behaviour signatures (hash of the abstracted scheduler / transport / handler event sequence)",
+            N_CLIENT_DIRECTED, N_SERVER_DIRECTED
         ),
         agg,
         extra: BTreeMap::new(),
@@ -543,41 +598,260 @@ fn client_prop(ctx: &RunCtx) -> i32 {
             "the mock transport honours the Sink/Stream contract (self-tested)".into(),
             "deadline oracles use virtual time plus measured real-time brackets; the std and tokio clocks are shared by harness and tarpc".into(),
         ],
-        required_cells: client_required_cells(prop),
+        required_cells: req,
         exhaustive: None,
     };
     finish(ctx, rep)
 }
 
 // ------------------------------------------------------------------------------------------
+// server-side scenarios
+
+fn server_directed(k: u64, seed: u64) -> Option<SCfg> {
+    let mut c = SCfg::base(seed);
+    c.label = "directed";
+    c.nmsgs = 0;
+    c.drop_pct = 0;
+    c.hold_pct = 0;
+    c.droph_pct = 0;
+    let long = SDl::Ms(10_000);
+    match k {
+        0 | 1 => {
+            // C12: at the limit, a cancel and a fresh request are read in one poll of the channel
+            c.limit = Some(if k == 0 { 1 } else { 2 });
+            c.script = vec![SAct::Fresh(long)];
+            if k == 1 {
+                c.script.push(SAct::Fresh(long));
+            }
+            c.script.extend([SAct::RunIdle, SAct::CancelNth(0), SAct::Fresh(long), SAct::RunIdle]);
+            c.label = "C12-cancel-then-request-in-one-poll";
+        }
+        2 => {
+            // C12: expiry then request in one poll
+            c.limit = Some(1);
+            c.script = vec![SAct::Fresh(SDl::Ms(20)), SAct::RunIdle, SAct::Advance(25), SAct::Fresh(long), SAct::RunIdle];
+            c.label = "C12-expiry-then-request";
+        }
+        3 => {
+            // C12: burst crossing the boundary
+            c.limit = Some(2);
+            c.script = vec![SAct::Fresh(long), SAct::Fresh(long), SAct::Fresh(long), SAct::Fresh(long), SAct::RunIdle];
+            c.label = "C12-burst";
+        }
+        4 => {
+            // C06/C11 known finding F6: limiter at its limit and sink not ready -> expiry unprocessed
+            c.limit = Some(1);
+            c.cap = 1;
+            c.model = Model::Coupled;
+            c.steps_per_handler = 1;
+            c.err_pct = 0;
+            c.script = vec![
+                SAct::CloseFlush,
+                SAct::Fresh(long),
+                SAct::RunIdle,
+                SAct::OpenAllGates,
+                SAct::RunIdle,
+                SAct::Fresh(SDl::Ms(50)),
+                SAct::RunIdle,
+                SAct::Advance(200),
+                SAct::RunIdle,
+            ];
+            c.label = "F6-limiter-at-limit-sink-not-ready";
+        }
+        5..=8 => {
+            // C04: cancel at each stage
+            c.steps_per_handler = 2;
+            c.err_pct = 0;
+            c.cap = 1;
+            c.model = Model::Coupled;
+            c.script = match k {
+                5 => vec![SAct::Fresh(long), SAct::PollServer, SAct::CancelNth(0), SAct::RunIdle], // before the handler's first poll
+                6 => vec![SAct::Fresh(long), SAct::RunIdle, SAct::CancelNth(0), SAct::RunIdle], // running
+                7 => vec![
+                    // finished, response buffered, sink blocked
+                    SAct::CloseFlush,
+                    SAct::Fresh(long),
+                    SAct::Fresh(long),
+                    SAct::RunIdle,
+                    SAct::OpenAllGates,
+                    SAct::RunIdle,
+                    SAct::CancelNth(1),
+                    SAct::CancelNth(0),
+                    SAct::RunIdle,
+                    SAct::OpenFlush,
+                    SAct::RunIdle,
+                ],
+                _ => vec![SAct::Fresh(long), SAct::RunIdle, SAct::OpenAllGates, SAct::RunIdle, SAct::CancelNth(0), SAct::RunIdle], // already written
+            };
+            c.label = "C04-cancel-stage";
+        }
+        9 => {
+            // C06: several deadlines, peer silent
+            c.script = vec![
+                SAct::Fresh(SDl::Past),
+                SAct::Fresh(SDl::Ms(0)),
+                SAct::Fresh(SDl::Ms(1)),
+                SAct::Fresh(SDl::Ms(5)),
+                SAct::Fresh(SDl::Ms(50)),
+                SAct::Fresh(SDl::Ms(3 * 3600 * 1000)),
+                SAct::Fresh(SDl::Ms(YEAR_MS)),
+                SAct::RunIdle,
+            ];
+            c.auto_gates = false;
+            c.label = "C06-deadline-classes";
+        }
+        10 => {
+            // C08: duplicate while in flight, then reuse after completion
+            c.err_pct = 0;
+            c.script = vec![
+                SAct::Fresh(long),
+                SAct::RunIdle,
+                SAct::DupNth(0),
+                SAct::RunIdle,
+                SAct::OpenAllGates,
+                SAct::RunIdle,
+                SAct::DupNth(0),
+                SAct::RunIdle,
+            ];
+            c.label = "C08-duplicate-then-reuse";
+        }
+        11 => {
+            // C10: inbound ends while handlers run and the sink is slow
+            c.cap = 1;
+            c.script = vec![SAct::Fresh(long), SAct::Fresh(long), SAct::Fresh(SDl::Ms(30)), SAct::RunIdle, SAct::CloseFlush, SAct::Inject(sserver::PeerMsg::Eof), SAct::RunIdle];
+            c.label = "C10-eof-with-work-in-progress";
+        }
+        12 => {
+            // C11: application never runs / drops midway
+            c.hold_pct = 50;
+            c.drop_pct = 30;
+            c.droph_pct = 10;
+            c.nmsgs = 12;
+            c.label = "C11-application-abandons";
+        }
+        13 => {
+            // C11: long run on one connection
+            c.nmsgs = 400;
+            c.cancel_pct = 15;
+            c.deadlines = vec![SDl::Ms(3), SDl::Ms(50), SDl::Ms(10_000)];
+            c.label = "C11-long-run";
+        }
+        _ => return None,
+    }
+    Some(c)
+}
+const N_SERVER_DIRECTED: u64 = 14;
+
+pub fn server_cfg(prop: &str, i: u64, base_seed: u64, thorough: bool) -> SCfg {
+    let seed = mix(base_seed, i.wrapping_mul(0x51ED) ^ 0x5E11);
+    let directed_slot = i < N_SERVER_DIRECTED * 8 || i % 20 == 0;
+    if directed_slot {
+        let k = i % N_SERVER_DIRECTED;
+        if let Some(mut c) = server_directed(k, seed) {
+            if k == 13 {
+                if thorough && i % 40 == 0 {
+                    c.nmsgs = 2500;
+                } else if i >= N_SERVER_DIRECTED {
+                    c.nmsgs = 150;
+                }
+            }
+            return c;
+        }
+    }
+    let mut c = SCfg::random(seed);
+    let mut r = Rng::new(seed ^ 0xB1A5);
+    match prop {
+        "C04" => {
+            c.cancel_pct = *r.pick(&[25, 50]);
+        }
+        "C06" => {
+            c.cancel_pct = *r.pick(&[0, 10]);
+            c.deadlines.retain(|d| *d != SDl::Ms(10_000));
+            if c.deadlines.is_empty() {
+                c.deadlines.push(SDl::Ms(50));
+            }
+        }
+        "C08" => {
+            c.dup_pct = *r.pick(&[8, 20, 30]);
+            c.reuse_pct = *r.pick(&[8, 20, 30]);
+        }
+        "C12" => {
+            c.limit = Some(*r.pick(&[0, 1, 1, 2, 3, 8]));
+            c.nmsgs = 3 + r.below(14);
+        }
+        _ => {}
+    }
+    c
+}
+
+fn server_required_cells(prop: &str) -> Vec<String> {
+    let v: Vec<&str> = match prop {
+        "C04" => vec![
+            "C04.cancel.not-yet-polled",
+            "C04.cancel.handler-running",
+            "C04.cancel.finished-unwritten",
+            "C04.cancel.response-written",
+            "C04.cancel.unknown-or-ended",
+        ],
+        "C06" => vec![
+            "C06.expired.past",
+            "C06.expired.zero",
+            "C06.expired.1-5ms",
+            "C06.expired.50ms-10s",
+            "C06.expired.hours",
+            "C06.expired.largest-span",
+            "C06.finished-before-deadline",
+        ],
+        "C08" => vec!["C08.duplicate-while-in-flight"],
+        "C10" => vec!["C10.server.ended"],
+        "C11" => vec!["C11.server.idle-equality-checked"],
+        "C12" => vec!["C12.throttled", "C12.admitted-at-L-1"],
+        "C14" => vec![
+            "C14.server.pending.poll_ready.Coupled",
+            "C14.server.pending.poll_ready.Independent",
+            "C14.server.pending.poll_flush.Coupled",
+        ],
+        _ => vec![],
+    };
+    v.into_iter().map(String::from).collect()
+}
+
+// ------------------------------------------------------------------------------------------
 // C09 (client half): fault enumeration
 
-fn c09_client(ctx: &RunCtx) -> i32 {
+fn c09(ctx: &RunCtx) -> i32 {
     let prop = ctx.prop;
     let seed = ctx.seed;
-    let nbase = ctx.n(8, 200);
+    let nbase = ctx.n(10, 150);
     let schedules = if ctx.thorough() { 3 } else { 1 };
-    // 1) fault-free base runs: count operations
-    let mut jobs: Vec<(u64, Option<(Op, usize)>)> = vec![];
+    // 1) fault-free base runs count the calls of every transport operation
+    // job = (is_server, base index, fault)
+    let mut jobs: Vec<(bool, u64, Option<(Op, usize)>)> = vec![];
     let mut space = 0u64;
-    for b in 0..nbase * schedules {
-        let mut cfg = c09_base_cfg(b, seed);
-        cfg.fault = None;
-        // count ops with an unreachable fault index
-        cfg.fault = Some((Op::Eof, usize::MAX));
-        let counts = sclient_opcounts(&cfg);
-        jobs.push((b, None));
-        for op in Op::ALL {
-            let n = counts.get(&op).copied().unwrap_or(0);
-            let upto = n.min(64);
-            for k in 1..=upto {
-                jobs.push((b, Some((op, k))));
-                space += 1;
-            }
-            if n > 64 {
-                let mut r = Rng::new(mix(seed, b ^ op as u64));
-                for _ in 0..32 {
-                    jobs.push((b, Some((op, 65 + r.below(n - 64)))));
+    for server in [false, true] {
+        for b in 0..nbase * schedules {
+            let counts = if server {
+                let mut cfg = c09_server_base_cfg(b, seed);
+                cfg.fault = Some((Op::Eof, usize::MAX));
+                opcounts(&sserver::run(&cfg))
+            } else {
+                let mut cfg = c09_base_cfg(b, seed);
+                cfg.fault = Some((Op::Eof, usize::MAX));
+                opcounts(&sclient::run(&cfg))
+            };
+            jobs.push((server, b, None));
+            for op in Op::ALL {
+                let n = counts.get(&op).copied().unwrap_or(0);
+                let upto = n.min(64);
+                for k in 1..=upto {
+                    jobs.push((server, b, Some((op, k))));
+                    space += 1;
+                }
+                if n > 64 {
+                    let mut r = Rng::new(mix(seed, b ^ op as u64));
+                    for _ in 0..32 {
+                        jobs.push((server, b, Some((op, 65 + r.below(n - 64)))));
+                    }
                 }
             }
         }
@@ -585,27 +859,28 @@ fn c09_client(ctx: &RunCtx) -> i32 {
     let jobs_ref = &jobs;
     let tier = ctx.tier.clone();
     let agg = run_parallel(prop, jobs.len() as u64, &ctx.known, |i| {
-        let (b, fault) = jobs_ref[i as usize];
-        let mut cfg = c09_base_cfg(b, seed);
-        cfg.fault = fault;
-        let mut o = sclient::run(&cfg);
-        if let Value::Object(m) = &mut o.desc {
-            m.insert("index".into(), json!(b));
-            m.insert("base_seed".into(), json!(seed));
-            m.insert("for_property".into(), json!("C09base"));
-            m.insert("tier".into(), json!(tier));
-            if let Some((op, k)) = fault {
-                m.insert("fault_override".into(), json!([Op::ALL.iter().position(|x| *x == op).unwrap(), k]));
-            }
+        let (server, b, fault) = jobs_ref[i as usize];
+        let mut o = if server {
+            let mut cfg = c09_server_base_cfg(b, seed);
+            cfg.fault = fault;
+            sserver::run(&cfg)
+        } else {
+            let mut cfg = c09_base_cfg(b, seed);
+            cfg.fault = fault;
+            sclient::run(&cfg)
+        };
+        tag(&mut o, b, seed, "C09base", &tier);
+        if let (Value::Object(m), Some((op, k))) = (&mut o.desc, fault) {
+            m.insert("fault_override".into(), json!([Op::ALL.iter().position(|x| *x == op).unwrap(), k]));
         }
         o
     });
     let mut extra = BTreeMap::new();
-    extra.insert("base_scenarios".into(), json!(nbase * schedules));
+    extra.insert("base_scenarios".into(), json!(2 * nbase * schedules));
     extra.insert("fault_points_enumerated".into(), json!(space));
     let rep = Report {
         level: "fault_enumeration",
-        rule: "for each base S-client scenario (calls in every stage) a fault-free run counts the calls N_op of every transport method; the scenario is then re-run once per (op,k), k=1..N_op (all k when N_op<=64, else 64 + 32 sampled), and per end-of-stream position; non-trivial = the fault actually fired; distinct = distinct behaviour signatures".into(),
+        rule: "for each base scenario (S-client: calls in every stage - blocked on the request buffer, queued, in flight, replied-but-unread; S-server: requests running, held, answered) a fault-free run counts the calls N_op of every transport method; the scenario is then re-run once per (op,k), k=1..N_op (all k when N_op<=64, else 64 + 32 sampled), and once per end-of-stream position; non-trivial = the fault actually fired; distinct = distinct behaviour signatures".into(),
         agg,
         extra,
         assumptions: vec!["schedules are replayed from the same seed, so the k-th call of an operation is the same call as in the counting run up to the point of the fault".into()],
@@ -616,10 +891,31 @@ fn c09_client(ctx: &RunCtx) -> i32 {
             "C09.fault.poll_close".into(),
             "C09.fault.poll_next".into(),
             "C09.fault.end_of_stream".into(),
+            "C09.server.fault.poll_ready".into(),
+            "C09.server.fault.start_send".into(),
+            "C09.server.fault.poll_flush".into(),
+            "C09.server.fault.poll_next".into(),
         ],
         exhaustive: Some(true),
     };
     finish(ctx, rep)
+}
+
+pub fn c09_server_base_cfg(b: u64, seed: u64) -> SCfg {
+    let s = mix(seed, b ^ 0xFA17);
+    let mut r = Rng::new(s);
+    let mut c = SCfg::base(s);
+    c.label = "C09-server-base";
+    c.mode = if b % 3 == 2 { Mode::Execute } else { Mode::Requests };
+    c.model = if b % 2 == 0 { Model::Coupled } else { Model::Independent };
+    c.cap = *r.pick(&[1, 2, 3]);
+    c.limit = *r.pick(&[None, Some(1), Some(2)]);
+    c.resp_buf = *r.pick(&[1, 2]);
+    c.nmsgs = 4 + r.below(6);
+    c.deadlines = vec![SDl::Ms(50), SDl::Ms(10_000), SDl::Ms(10_000)];
+    c.cancel_pct = 15;
+    c.droph_pct = 0;
+    c
 }
 
 pub fn c09_base_cfg(b: u64, seed: u64) -> CCfg {
@@ -642,8 +938,7 @@ pub fn c09_base_cfg(b: u64, seed: u64) -> CCfg {
     c
 }
 
-fn sclient_opcounts(cfg: &CCfg) -> BTreeMap<Op, usize> {
-    let o = sclient::run(cfg);
+fn opcounts(o: &Outcome) -> BTreeMap<Op, usize> {
     let mut m = BTreeMap::new();
     for (k, v) in o.counters.iter() {
         for op in Op::ALL {
